@@ -15,7 +15,7 @@
 // Query and the result of the dedup functions on the per-replica result sets are compared with the
 // spec state.
 //
-//	-in behaviours.ndjson -out result.json -replicas a,b,c [-reps 50] [-rotate 400] [-workers 6]
+//	-in behaviours.ndjson -out result.json -replicas a,b,c [-reps 200] [-rotate 400] [-workers 6]
 package main
 
 import (
@@ -592,10 +592,43 @@ func (r *run) checkState(st vlib.State, op string, keys []string) *stepError {
 		if err != nil {
 			return &stepError{"harness-error", "queryProperties: " + err.Error()}
 		}
-		// the real Query (several times when more than one replica answers: its dedup iterates over a map)
-		qn := r.repsFor(np)
-		if qn > 12 {
-			qn = 12
+		// the dedup functions on these per-replica result sets, repeatedly: they iterate over a map keyed by
+		// node, and Go's order for a small map is skewed (one of two orders may come up only once in eight)
+		wantD := expectDedup(want, hasDocs)
+		asc := r.queryReq(k)
+		asc.Limit = 100
+		asc.OrderBy = &propertyv1.QueryOrder{TagName: "t1", Sort: modelv1.Sort_SORT_ASC}
+		desc := r.queryReq(k)
+		desc.Limit = 100
+		desc.OrderBy = &propertyv1.QueryOrder{TagName: "t1", Sort: modelv1.Sort_SORT_DESC}
+		orderDependent := false
+		n := r.repsFor(np)
+		for i := 0; i < n; i++ {
+			r.res.Inc("dedup_calls_compared")
+			if g := r.dedupString(r.c.vps.SimpleDedupWithoutSort(np)); g != wantD {
+				orderDependent = true
+				r.violate("dedup-simple", fmt.Sprintf("simpleDedupWithoutSort(%s) call %d = [%s], expected [%s]; per-replica results %s", k, i+1, g, wantD, r.nodeResults(np)))
+				break
+			}
+		}
+		for _, req := range []*propertyv1.QueryRequest{asc, desc} {
+			bad := false
+			for i := 0; i < n && !bad; i++ {
+				r.res.Inc("dedup_calls_compared")
+				if g := r.dedupString(r.c.vps.SortedQueryWithDedup(np, req)); g != wantD {
+					bad, orderDependent = true, true
+					r.violate("dedup-sorted", fmt.Sprintf("sortedQueryWithDedup(%s, %s) call %d = [%s], expected [%s]; per-replica results %s", k, req.OrderBy.Sort, i+1, g, wantD, r.nodeResults(np)))
+				}
+			}
+			if bad {
+				break
+			}
+		}
+		// the real Query: a few times; if its dedup has just been seen to depend on the map order, until the
+		// wrong answer shows (bounded), so that the symptom on the real path is demonstrated reliably
+		qn := 3
+		if orderDependent {
+			qn = n
 		}
 		for i := 0; i < qn; i++ {
 			resp, err := r.c.svc.Query(ctx, r.queryReq(k))
@@ -615,35 +648,6 @@ func (r *run) checkState(st vlib.State, op string, keys []string) *stepError {
 				// an observation: the replicas still are what the spec says, so the behaviour goes on
 				r.violate("query-after-"+op, fmt.Sprintf("Query(%s) call %d = [%s], sequential map has [%s]; replicas: %s", k, i+1, got, want, r.replicaDump(k)))
 				break
-			}
-		}
-		// the dedup functions on the same per-replica result sets, repeatedly (map iteration order)
-		wantD := expectDedup(want, hasDocs)
-		asc := r.queryReq(k)
-		asc.Limit = 100
-		asc.OrderBy = &propertyv1.QueryOrder{TagName: "t1", Sort: modelv1.Sort_SORT_ASC}
-		desc := r.queryReq(k)
-		desc.Limit = 100
-		desc.OrderBy = &propertyv1.QueryOrder{TagName: "t1", Sort: modelv1.Sort_SORT_DESC}
-		simpleBad, sortedBad := false, false
-		for i, n := 0, r.repsFor(np); i < n; i++ {
-			if !simpleBad {
-				r.res.Inc("dedup_calls_compared")
-				if g := r.dedupString(r.c.vps.SimpleDedupWithoutSort(np)); g != wantD {
-					simpleBad = true
-					r.violate("dedup-simple", fmt.Sprintf("simpleDedupWithoutSort(%s) call %d = [%s], expected [%s]; per-replica results %s", k, i+1, g, wantD, r.nodeResults(np)))
-				}
-			}
-			req := asc
-			if i%2 == 1 {
-				req = desc
-			}
-			if !sortedBad {
-				r.res.Inc("dedup_calls_compared")
-				if g := r.dedupString(r.c.vps.SortedQueryWithDedup(np, req)); g != wantD {
-					sortedBad = true
-					r.violate("dedup-sorted", fmt.Sprintf("sortedQueryWithDedup(%s) call %d = [%s], expected [%s]; per-replica results %s", k, i+1, g, wantD, r.nodeResults(np)))
-				}
 			}
 		}
 	}
@@ -957,7 +961,7 @@ func replay(in string, names []string, reps, rotate, workers int, res *vlib.Resu
 func main() {
 	in := flag.String("in", "", "behaviour file")
 	out := flag.String("out", "", "result file")
-	reps := flag.Int("reps", 50, "repetitions of the order-sensitive functions per state")
+	reps := flag.Int("reps", 200, "repetitions of the order-sensitive functions per state")
 	rotate := flag.Int("rotate", 400, "open fresh databases every N behaviours")
 	replicas := flag.String("replicas", "a,b", "replica names = the spec's Replicas constant")
 	workers := flag.Int("workers", 6, "parallel replay workers (each with its own databases)")
